@@ -37,7 +37,8 @@ var c20TreeMutations = []string{
 	"maintenance:malformed", "maintenance:full", "optimization:gone", "last_switch:malformed", "resetup:malformed-h2", "last_shutdown:malformed",
 }
 
-var c20ServerStates = []string{"all-up", "master-down", "h2-down", "h2-hung", "cycle", "all-down", "h2-no-plugin", "h2-old-version"}
+var c20ServerStates = []string{"all-up", "master-down", "h2-down", "h2-hung", "cycle", "all-down", "h2-no-plugin", "h2-old-version",
+	"started-during-outage", "started-during-outage-with-maintenance-file"}
 
 func c20Run(r *vt.Run, c c20Case) {
 	r.Eval()
@@ -60,10 +61,26 @@ func c20Run(r *vt.Run, c c20Case) {
 		c20Prepare(h, c)
 		w := h.W
 		w.LogStmts = r.Replay != nil
+		outage := strings.HasPrefix(c.Servers, "started-during-outage")
+		if outage {
+			// both instances are (re)started while the coordination service cannot be reached; it comes
+			// back after their first iteration
+			if strings.HasSuffix(c.Servers, "maintenance-file") {
+				w.VFSPut("/vfs/h1/maintenance", nil)
+				w.VFSPut("/vfs/h2/maintenance", nil)
+			}
+			w.ZK.Down = true
+			w.ZK.SyncLinks()
+		}
 		a1 := h.Start("h1")
 		a2 := h.Start("h2")
 		var g2, db2 int
 		for it := 1; it <= 5; it++ {
+			if outage && it == 2 {
+				w.ZK.Down = false
+				w.ZK.SyncLinks()
+				w.Settle()
+			}
 			for _, a := range []*App{a1, a2} {
 				np := len(w.Panics)
 				h.Tick(a)
